@@ -46,7 +46,8 @@ class SwitchExperimenter(experimenter.Experimenter):
 
   def evaluate(self, suggestions: Sequence[vz.Trial]) -> None:
     for trial in suggestions:
-      exptr_index = trial.parameters[self._switch_param_name].value
+      # The switch parameter is DISCRETE: its value may arrive as a float (1.0).
+      exptr_index = int(trial.parameters[self._switch_param_name].value)
 
       trial_copy = copy.deepcopy(trial)
       self.experimenters[exptr_index].evaluate([trial_copy])
